@@ -157,9 +157,29 @@ func c20(e *Env) {
 			cc.opts["NO-CONTACT"] = "1" // no backend given at all
 			cc.refuse = true
 		case 5:
+			// peers need addresses: this proxy's own rpc-address and one for every entry - any
+			// combination of the two omissions (and none) over lists of one to three entries
 			cc.route = 2
-			cc.yamlExtra = "peers:\n  - rpc-address: 10.1.1.2\n    data-center: dc2\n" // peers without this proxy's rpc-address
-			cc.refuse = true
+			k := idx / 9
+			own := k%3 != 0 // two cases in three give this proxy an rpc-address
+			if own {
+				cc.opts["rpc-address"] = "10.1.1.1"
+			}
+			nPeers := 1 + (k/3)%3
+			lack := (k / 9) % (1 << nPeers) // which entries have no rpc-address
+			if !own && k%2 == 0 {
+				lack = (1 << nPeers) - 1 // none has
+			}
+			var ents []string
+			for i := 0; i < nPeers; i++ {
+				if lack&(1<<i) == 0 {
+					ents = append(ents, fmt.Sprintf("  - rpc-address: 10.1.1.%d\n    data-center: dc2\n", i+2))
+				} else {
+					ents = append(ents, "  - data-center: dc2\n")
+				}
+			}
+			cc.yamlExtra = "peers:\n" + strings.Join(ents, "")
+			cc.refuse = !own || lack != 0
 		case 6:
 			// tokens for this proxy: every *other* peer needs tokens too, whether or not the list
 			// also has an entry for this proxy itself (with or without tokens, at any position)
